@@ -113,4 +113,79 @@ theorem readAssign_eq_specRead (ifs : Ifs) (text : List AttrChar) (n : Nat) :
       simp only [lastRange, this, if_false]
       rw [restTrimmed_eq_slice]
 
+theorem mem_takeWhile_sat (p : α → Bool) (l : List α) : ∀ c ∈ l.takeWhile p, p c = true := by
+  induction l with
+  | nil => intro c hc; simp at hc
+  | cons x t ih =>
+    intro c hc
+    by_cases hx : p x = true
+    · simp only [List.takeWhile_cons, hx, if_true, List.mem_cons] at hc
+      rcases hc with rfl | hc
+      · exact hx
+      · exact ih c hc
+    · simp [hx] at hc
+
+theorem rstrip_spec (p : α → Bool) (l : List α) :
+    ∃ tail, l = rstrip p l ++ tail ∧ (∀ c ∈ tail, p c = true) ∧
+      (∀ c, (rstrip p l).getLast? = some c → p c = false) := by
+  refine ⟨(l.reverse.takeWhile p).reverse, ?_, ?_, ?_⟩
+  · have h0 := List.takeWhile_append_dropWhile (p := p) (l := l.reverse)
+    have h1 : l.reverse.reverse = (l.reverse.takeWhile p ++ l.reverse.dropWhile p).reverse := by
+      rw [h0]
+    rw [List.reverse_reverse, List.reverse_append] at h1
+    exact h1
+  · intro c hc
+    rw [List.mem_reverse] at hc
+    exact mem_takeWhile_sat p _ c hc
+  · intro c hc
+    simp only [rstrip, List.getLast?_reverse] at hc
+    have := List.head?_dropWhile_not p l.reverse
+    rw [hc] at this
+    exact this
+
+theorem readAssign_index (ifs : Ifs) (text : List AttrChar) (n k : Nat) (hk : k < n) :
+    (readAssign ifs text n)[k]? =
+      some (removeQuotesAndStrip ((splitInto ifs text)[k]?.getD [])) := by
+  unfold readAssign
+  simp only [assignFirst_eq]
+  rw [List.getElem?_append_left (by simp [hk])]
+  simp only [List.getElem?_map, List.getElem?_range hk, Option.map_some, splitInto, splitWith]
+  cases h : (rangesOf ifs.classifyAttr text)[k]? with
+  | none => simp [removeQuotesAndStrip, skipQuotes, strip]
+  | some r => simp
+
+theorem readAssign_last (ifs : Ifs) (text : List AttrChar) (n : Nat) :
+    (readAssign ifs text n)[n]? =
+      some (if (splitInto ifs text).length ≤ n + 1
+            then removeQuotesAndStrip ((splitInto ifs text)[n]?.getD [])
+            else removeQuotesAndStrip
+              (restTrimmed ifs text (((rangesOf ifs.classifyAttr text)[n]?.getD (0, 0)).1))) := by
+  rw [readAssign_eq_specRead]
+  unfold specRead
+  have hr : specSplit (text.map ifs.classifyAttr) = rangesOf ifs.classifyAttr text := by
+    simp [rangesOf, ranges_eq_specSplit_cls]
+  simp only [hr]
+  rw [List.getElem?_append_right (by simp)]
+  simp only [List.length_map, List.length_range, Nat.sub_self, List.getElem?_cons_zero, splitInto,
+    splitWith, List.getElem?_map]
+  generalize rangesOf ifs.classifyAttr text = rs
+  cases h : rs[n]? with
+  | none =>
+    have hl : rs.length ≤ n := by
+      rcases Nat.lt_or_ge n rs.length with h' | h'
+      · rw [List.getElem?_eq_getElem h'] at h; cases h
+      · exact h'
+    have : rs.length ≤ n + 1 := by omega
+    simp [this, removeQuotesAndStrip, skipQuotes, strip]
+  | some r =>
+    have hl : n < rs.length := by
+      rcases Nat.lt_or_ge n rs.length with h' | h'
+      · exact h'
+      · rw [List.getElem?_eq_none h'] at h; cases h
+    by_cases he : rs.length = n + 1
+    · have : rs.length ≤ n + 1 := by omega
+      simp [he]
+    · have : ¬ rs.length ≤ n + 1 := by omega
+      simp [he, this]
+
 end YashModel.Expansion
